@@ -31,6 +31,7 @@
     init_schedule; check_placement_integrity) completes on every cut. *)
 From Coq Require Import ZArith List Bool.
 From TM Require Import Master.Publish Master.PublishP Gen.Tables.
+From TM Require Import Base.ShapeCanon.
 Import ListNotations.
 Open Scope Z_scope.
 
@@ -181,3 +182,10 @@ Example C10_nonvacuous :
   flat_store (apply_writes ex_store (reschedule_writes c10_cfg ex_tuples ex_info [4])) =
     flat_store (model_entries ex_info ex_tuples).
 Proof. vm_compute. repeat split. Qed.
+
+(** the functions named by this property's anchors still have the statement skeleton the model was written from
+    (re-extracted from the Python AST on every run, harness/tables_shape.py + harness/shape_pins.json; kept last so that
+    a difference does not stop the theorems above from being checked) *)
+Theorem C10_anchor_shape : shapes_ok_C10 = true.
+Proof. vm_compute. reflexivity. Qed.
+Print Assumptions C10_anchor_shape.
